@@ -332,6 +332,58 @@ structure RespData where
   ip : IPKind
 deriving Repr, DecidableEq
 
+/-! ### `ipFromAnswer`, `ipFromHTTPSRR`, `ipFromHTTPSRRKV`
+
+The answer section as these functions see it: the dynamic type of each record and the `net.IP`
+values of address records and HTTPS hints. -/
+
+/-- A `net.IP` value: `nil`, a slice of a length no address has (or, for an A record, a 16-byte
+value that is not an IPv4-mapped one: `netutil.IPToAddr` fails), the unspecified address, another one. -/
+inductive IPVal where
+  | nil | bad | unspec | addr
+deriving Repr, DecidableEq
+
+/-- A parameter of an HTTPS record. -/
+inductive KV where
+  | hint4 (hs : List IPVal)
+  | hint6 (hs : List IPVal)
+  | other
+deriving Repr, DecidableEq
+
+inductive RR where
+  | a (ip : IPVal)
+  | aaaa (ip : IPVal)
+  | https (kvs : List KV)
+  /-- any other record type (CNAME, TXT, ...) -/
+  | other
+deriving Repr, DecidableEq
+
+/-- `netIP == nil` → zero address; `netutil.IPToAddr` error → zero address (the error is collected). -/
+def ipOfVal : IPVal → IPKind
+  | .nil => .none
+  | .bad => .none
+  | .unspec => .unspec
+  | .addr => .addr
+
+/-- `ipFromHTTPSRR`: the first parameter for which `ipFromHTTPSRRKV` reports a family — a hint with
+at least one address — decides, by its first address. -/
+def ipFromKVs : List KV → IPKind
+  | [] => .none
+  | .hint4 (h :: _) :: _ => ipOfVal h
+  | .hint6 (h :: _) :: _ => ipOfVal h
+  | _ :: r => ipFromKVs r
+
+/-- `ipFromAnswer`: records of other types are skipped; the first A, AAAA or HTTPS record decides. -/
+def ipFromAnswer : List RR → IPKind
+  | [] => .none
+  | .a ip :: _ => ipOfVal ip
+  | .aaaa ip :: _ => ipOfVal ip
+  | .https kvs :: _ => ipFromKVs kvs
+  | .other :: r => ipFromAnswer r
+
+/-- `responseData` of a message with the given RCODE, AD flag and answer section. -/
+def RespData.ofMsg (rcode : Nat) (ad : Bool) (ans : List RR) : RespData := ⟨rcode, ad, ipFromAnswer ans⟩
+
 structure Req where
   -- rate-limit / access middleware
   port0 : Bool
@@ -422,6 +474,11 @@ def ctryNA : Str := [81, 78]
 /-- `filterResponse`: the response is not filtered after a CNAME rewrite of the request. -/
 def respResOf (q : Req) : FRes := if q.reqRes.kind = .modReq then FRes.nil else q.respRes
 
+/-- `dnsmsg.RCode(resp.Rcode)` in `responseData`: the conversion of `Msg.Rcode` (an `int`) to `uint16`.
+A message that can be packed has a 12-bit RCODE (4 header bits and 8 bits in the OPT record), for which
+this is the identity (`rcode16_wire`). -/
+def rcode16 (rc : Nat) : Nat := rc % 65536
+
 /-- `recordQueryInfo`. -/
 def record (q : Req) : Effects :=
   let fd := filteringData q.reqRes (respResOf q)
@@ -436,12 +493,12 @@ def record (q : Req) : Effects :=
     if ¬ p.qlog then billed
     else
       let respIP := if fd.2.2 then q.orig.ip else fr.ip
-      let rc := if fr.rcode ≠ 0 ∨ respIP ≠ .addr then ctryNA else q.geoCtry
+      let rc := if rcode16 fr.rcode ≠ 0 ∨ respIP ≠ .addr then ctryNA else q.geoCtry
       let e : Entry :=
         { ip := if p.iplog then some q.remoteIP else none,
           reqRes := q.reqRes, respRes := respResOf q, timeMs := q.startMs, reqId := q.reqId,
           prof := p.id, dev := d, cc := ctry, rc := rc, name := q.name, elapsedMs := q.elapsedMs,
-          asn := asn, qtype := q.qtype, rcode := fr.rcode, proto := q.proto, dnssec := fr.ad }
+          asn := asn, qtype := q.qtype, rcode := rcode16 fr.rcode, proto := q.proto, dnssec := fr.ad }
       { billed with log := some e }
 
 /-- The main middleware's `Wrap`; `wfail`: its own response writer fails. -/
@@ -496,8 +553,9 @@ abbrev Jobs := Nat → Option (Entry × Nat)
 
 def put {α : Type} (f : Nat → α) (k : Nat) (v : α) : Nat → α := fun x => if x = k then v else f x
 
-/-- `pc i`: 0 not started, 1 has a reset buffer, 2 entry stored, 3 encoded, 4 appended, 5 buffer
-returned.  `hold i` is the pooled buffer writer `i` got. -/
+/-- `pc i`: 0 not started, 1 has a reset buffer, 2 entry stored, 3 file opened and entry encoded,
+4 appended, 5 buffer returned; 6 opening the file failed (buffer still held), 7 buffer returned after
+the failure.  `hold i` is the pooled buffer writer `i` got. -/
 structure FS where
   file : Str := []
   nbufs : Nat := 0
@@ -523,8 +581,9 @@ def lineOf (J : Jobs) (i : Nat) : Str :=
   | some job => encodeLine job.1 job.2
   | none => []
 
-/-- One step of writer `i`.  `choice` is what `sync.Pool.Get` does: `some k` with `k` pooled hands
-out buffer `k`; anything else allocates a new one. -/
+/-- One step of writer `i`.  `choice` is what the environment does: at the first step what
+`sync.Pool.Get` does (`some k` with `k` pooled hands out buffer `k`; anything else allocates a new
+one), at the step from 2 whether `os.OpenFile` fails (`some _`) or not (`none`). -/
 def FS.step (J : Jobs) (s : FS) (i : Nat) (choice : Option Nat) : FS :=
   match J i with
   | none => s
@@ -538,6 +597,12 @@ def FS.step (J : Jobs) (s : FS) (i : Nat) (choice : Option Nat) : FS :=
       { s with bufs := put s.bufs (s.hold i) { s.bufs (s.hold i) with ent := some job },
                pc := put s.pc i 2 }
     | 2 =>
+      match choice with
+      | some _ =>
+        -- `os.OpenFile` fails (the directory is being rotated, no descriptors left, ...): `Write`
+        -- returns the error; only the deferred `Put` is left to do
+        { s with pc := put s.pc i 6 }
+      | none =>
       { s with bufs := put s.bufs (s.hold i)
                  { s.bufs (s.hold i) with
                    bytes := (s.bufs (s.hold i)).bytes ++
@@ -551,6 +616,7 @@ def FS.step (J : Jobs) (s : FS) (i : Nat) (choice : Option Nat) : FS :=
                order := s.order ++ [i],
                pc := put s.pc i 4 }
     | 4 => { s with free := s.hold i :: s.free, pc := put s.pc i 5 }
+    | 6 => { s with free := s.hold i :: s.free, pc := put s.pc i 7 }
     | _ => s
 
 def FS.run (J : Jobs) (s : FS) : List (Nat × Option Nat) → FS
